@@ -26,7 +26,7 @@ import sys
 sys.path.insert(0, os.path.dirname(os.path.dirname(os.path.abspath(__file__))))
 import vlib
 
-CLASS_FILE = os.path.join(vlib.VERIF, "tools", "harness", "options_class.json")
+CLASS_FILE = os.environ.get("VERIF_C09_CLASS") or os.path.join(vlib.VERIF, "tools", "harness", "options_class.json")
 
 
 class T09Error(Exception):
